@@ -110,7 +110,14 @@ def _maxbond(m):
     return max(a.shape[-1] for a in m.A)
 
 
+def _same_qd(a, b):
+    return list(np.asarray(a.qd).tolist()) == list(np.asarray(b.qd).tolist())
+
+
 def _same_boundary(a, b):
+    # operands must carry the same physical quantum numbers (documented precondition, asserted by the library)
+    if list(np.asarray(a.qd).tolist()) != list(np.asarray(b.qd).tolist()):
+        return False
     return (list(np.asarray(a.qD[0]).tolist()) == list(np.asarray(b.qD[0]).tolist())
             and list(np.asarray(a.qD[-1]).tolist()) == list(np.asarray(b.qD[-1]).tolist()))
 
@@ -126,7 +133,7 @@ class MPSSystem(System):
         T = []
         nz = _norm(w.psi) > 1e-12
         small = _maxbond(w.psi) <= MAXBOND
-        hermK = w.name not in ('linf3',)
+        hermK = w.name not in ('linf3',) and _same_qd(w.K, w.psi)
         L = w.psi.nsites
 
         def add(label, ok, fn):
@@ -139,7 +146,7 @@ class MPSSystem(System):
             add(('H.orthonormalize', mode), True, lambda W, c, m=mode: W.H.orthonormalize(mode=m) and None)
         add(('psi=psi+phi',), small and _same_boundary(w.psi, w.phi), lambda W, c: setattr(W, 'psi', W.psi + W.phi))
         add(('psi=phi-psi',), small and _same_boundary(w.psi, w.phi), lambda W, c: setattr(W, 'psi', W.phi - W.psi))
-        add(('psi=apply(H,psi)',), _maxbond(w.psi) * _maxbond(w.H) <= MAXBOND, lambda W, c: setattr(W, 'psi', ptn.apply_operator(W.H, W.psi)))
+        add(('psi=apply(H,psi)',), _maxbond(w.psi) * _maxbond(w.H) <= MAXBOND and _same_qd(w.H, w.psi), lambda W, c: setattr(W, 'psi', ptn.apply_operator(W.H, W.psi)))
         add(('H=H+K',), _maxbond(w.H) <= MAXBOND and _same_boundary(w.H, w.K), lambda W, c: setattr(W, 'H', W.H + W.K))
         add(('H=H-K',), _maxbond(w.H) <= MAXBOND and _same_boundary(w.H, w.K), lambda W, c: setattr(W, 'H', W.H - W.K))
         add(('H=K@K',), True, lambda W, c: setattr(W, 'H', W.K @ W.K))
@@ -158,6 +165,8 @@ class MPSSystem(System):
         add(('phi=MPS(fill)',), True, lambda W, c: setattr(W, 'phi', MPS(W.phi.qd, W.phi.qD, fill=0.5)))
         add(('H=MPO(fill)',), _maxbond(w.H) <= MAXBOND, lambda W, c: setattr(W, 'H', MPO(W.H.qd, W.H.qD, fill=1.0)))
         add(('K=constructor',), True, lambda W, c: setattr(W, 'K', CTORS[W.ctor]()))
+        add(('psi.zero_qnumbers',), bool(np.any(np.asarray(w.psi.qd))), lambda W, c: W.psi.zero_qnumbers() and None)
+        add(('H.zero_qnumbers',), bool(np.any(np.asarray(w.H.qd))), lambda W, c: W.H.zero_qnumbers() and None)
         add(('phi=MPS(random)',), True, lambda W, c: setattr(W, 'phi', MPS(W.phi.qd, W.phi.qD, fill='random', rng=np.random.default_rng(3))))
         add(('H=MPO(random)',), _maxbond(w.H) <= MAXBOND, lambda W, c: setattr(W, 'H', MPO(W.H.qd, W.H.qD, fill='random', rng=np.random.default_rng(4))))
         return T
@@ -258,7 +267,7 @@ def spaces(tier, seed):
             if ok:
                 chunks.append(({'world': wn, 'prefix': [list(label)]}, depth - 1))
     return [Space('mps_histories', chunks, run_chunk=_run_chunk, sig=sig,
-                  bounds={'worlds': worlds, 'depth': depth, 'menu_size': 28, 'max_bond_guard': MAXBOND,
+                  bounds={'worlds': worlds, 'depth': depth, 'menu_size': 30, 'max_bond_guard': MAXBOND,
                           'menu': ['psi.orthonormalize(l/r)', 'psi.compress(tol 0/0.2, l/r)', 'H.orthonormalize(l/r)', 'psi=psi+phi', 'psi=phi-psi',
                                    'psi=apply(H,psi)', 'H=H+K', 'H=H-K', 'H=K@K', 'tdvp two-site (tol 0/1e-3)', 'tdvp single-site',
-                                   'dmrg single-site', 'dmrg two-site', 'split/merge sites 0,1', 'psi=from_vector(as_vector, tol 0 / 0.2)', 'phi=MPS(qd,qD,fill=0.5)', 'H=MPO(qd,qD,fill=1.0)', 'K=constructor', 'phi=MPS(qd,qD,random)', 'H=MPO(qd,qD,random)']})]
+                                   'dmrg single-site', 'dmrg two-site', 'split/merge sites 0,1', 'psi=from_vector(as_vector, tol 0 / 0.2)', 'phi=MPS(qd,qD,fill=0.5)', 'H=MPO(qd,qD,fill=1.0)', 'K=constructor', 'psi.zero_qnumbers', 'H.zero_qnumbers', 'phi=MPS(qd,qD,random)', 'H=MPO(qd,qD,random)']})]
